@@ -140,6 +140,7 @@ def run(prog: Program, ctx: Ctx) -> None:  # noqa: PLR0912,PLR0915
         {"D": [], "B": ["f"], "A": ["f"]},
         {"D": ["f", "g"], "B": ["g"], "A": ["h"]},
         {"D": [], "B": [], "A": []},
+        {"D": [], "B": [], "C": ["f"], "A": ["f", "g"]},  # diamond D(B, C), B(A), C(A): C overrides A.f, B only inherits it
     ]
     for li, lay in enumerate(layouts):
         order = list(lay)  # D first: the class itself, then its MRO
@@ -147,6 +148,14 @@ def run(prog: Program, ctx: Ctx) -> None:  # noqa: PLR0912,PLR0915
         for cname in order:
             objs[cname] = Obj(ccls, {"name": cname, "path": f"m.{cname}", "is_class": True, "is_alias": False,
                                      "members": {n_: member(cname, n_) for n_ in lay[cname]}}, label=cname)
+        # what each base itself inherits (diamond: every class before the last also derives from the last one)
+        last = order[-1]
+        for cname in order[1:-1]:
+            inh = {n_: member(last, n_) for n_ in lay[last] if n_ not in lay[cname]}
+            objs[cname].attrs["inherited_members"] = inh
+            objs[cname].attrs["all_members"] = {**inh, **objs[cname].attrs["members"]}
+        objs[last].attrs["inherited_members"] = {}
+        objs[last].attrs["all_members"] = dict(objs[last].attrs["members"])
         d = objs[order[0]]
         it.stubs[f"{M}.Class.mro"] = lambda _i, self_, order=order, objs=objs: [objs[c] for c in order[1:]]
         try:
@@ -184,3 +193,41 @@ def run(prog: Program, ctx: Ctx) -> None:  # noqa: PLR0912,PLR0915
     ctx.ob("R4", key(gm, "uses-members"), "self.members" in ast.unparse(gm.node) and "all_members" not in ast.unparse(gm.node), "get_member sees declared members only", where(gm))
     src = ast.unparse(mro_fn.node)
     ctx.ob("R4", key(mro_fn, "drops-self"), "self._mro()[1:]" in src, "mro() is the linearisation without the class itself", where(mro_fn))
+
+    # ------------------------------------------------------------------ R5 resolved bases
+    ctx.rule("R5", "resolved_bases keeps every base that can be found, in declaration order, whatever the position of the ones that cannot "
+                   "(not loaded / unresolvable alias); aliases are followed to their final target")
+    rb = prog.lookup_method(ccls, "resolved_bases")[0]
+    from sa.absint import Native
+
+    good = {n_: Obj(ccls, {"name": n_, "path": f"m.{n_}", "is_alias": False, "is_class": True}, label=n_) for n_ in ("A", "B", "C")}
+    final = Obj(ccls, {"name": "T", "path": "m.T", "is_alias": False, "is_class": True}, label="T")
+    alias_ok = Obj(None, {"name": "AL", "is_alias": True, "final_target": final}, label="alias->T")
+
+    def boom(_i, _o):
+        raise Raised("AliasResolutionError")
+
+    from sa.absint import lazy
+
+    alias_bad = Obj(None, {"name": "BAD", "is_alias": True, "final_target": lazy(boom)}, label="broken alias")
+    table = {"m.A": good["A"], "m.B": good["B"], "m.C": good["C"], "m.AL": alias_ok, "m.BAD": alias_bad}
+
+    def get_member(path):
+        if path not in table:
+            raise Raised("KeyError")
+        return table[path]
+
+    coll = Obj(None, {"get_member": Native(get_member)})
+    ecls = prog.cls("_griffe.expressions.ExprName")
+    n_rows = 0
+    for bases in itertools.permutations(["A", "missing", "B", "BAD", "AL"], 3):
+        subject = Obj(ccls, {"name": "S", "path": "m.S", "bases": [Obj(ecls, {"name": b, "canonical_path": f"m.{b}"}) if b != "B" else "m.B" for b in bases],
+                             "modules_collection": coll}, label="S")
+        try:
+            got = [o.attrs["name"] for o in it.getattr(subject, "resolved_bases")]
+        except Raised as r:
+            got = f"raises {r.exc}"
+        want = [{"AL": "T"}.get(b, b) for b in bases if b in ("A", "B", "AL")]
+        n_rows += 1
+        ctx.ob("R5", f"resolved_bases|{bases}", got == want, f"class S({', '.join(bases)}): resolved bases {got}, expected {want}", where(rb))
+    ctx.expect_min("R5", n_rows, 50)
